@@ -97,8 +97,17 @@ def _corpus_violations(pid: str, tier: str):
     viols = []
     for r in cs["results"]:
         per = {}
+        cont = r.get("dump_event")
         for clause, idx in r["viol"]:
+            if cont is not None and idx <= cont:
+                continue        # the prefix of a continued snapshot trace is the live trace itself
             per.setdefault(clause, []).append(idx)
+        if cont is not None and pid == "C19":
+            for clause, idxs in per.items():
+                if clause.split("_")[0] in ("C03", "C04", "C07", "C08"):
+                    viols.append(Violation("C19", "C19_ContinuationValid",
+                                           f"C19_ContinuationValid ({clause}) trace={r['name']} event={idxs[0]}",
+                                           {"events": idxs[:10], "trace": r["name"], "clause": clause}))
         for clause, idxs in per.items():
             if clause == "C18_IdleAllAsleep" and pid == "C18":
                 viols.append(Violation("C18", "C18_NoIdleMetaepoch", f"{STALL_SIG} (trace={r['name']} event={idxs[0]})",
@@ -241,6 +250,14 @@ _corpus_prop("C11", ["generations_recorded", "engine:SEA", "engine:DE", "engine:
              with_model=False)
 _corpus_prop("C12", ["generations_recorded", "engine:SEA", "engine:DE", "engine:SHADE", "maximize"], with_model=False,
              tables=("engines",))
+_corpus_prop("C19", ["dumps", "dumps_with_live_cma", "dumps_with_hibernating_deme", "loaded_continuations",
+                     "dump_at_mc=0", "dump_at_mc=1", "dump_at_mc=2"], with_model=False,
+             extra_assume=("the continuation of the restored tree is required to be a valid HMS behaviour, not to equal the live "
+                           "continuation (false for CMA demes although nothing is wrong: DESIGN.md 4/C19)",))
+_corpus_prop("C20", ["reports", "reports_best_is_zero", "reports_with_fresh_deme", "reports_with_hibernating_deme",
+                     "reports_with_stopped_deme"], with_model=False,
+             extra_assume=("report text is parsed by the harness (regular layout of format_deme); exceptions raised by query "
+                           "accessors other than summary()/tree() are recorded as their answer, not flagged",))
 _corpus_prop("C18", ["deme_snapshots_hibernating", "hibernation_on", "hibernation_off", "levels=3", "rounds_empty"])
 
 
